@@ -304,6 +304,28 @@ func evalCase(cs Case, expCache map[string]string) (class, msg string) {
 				if g, w := snaps[len(snaps)-1].want, exp(cur, 0); g != w && bodyErr == "" {
 					bodyErr = fmt.Sprintf("the Snapshot taken at step %d does not show the transaction's writes so far:\n%s    want\n%s", i, ind(g), ind(w))
 				}
+				// a snapshot is a read-only transaction: writes through it are refused, Commit and Abort on it are
+				// no-ops (the checks after this step see the router, the transaction and the writer lock unchanged)
+				refused := func(what string, err error) {
+					if !errors.Is(err, fox.ErrReadOnlyTxn) && bodyErr == "" {
+						bodyErr = fmt.Sprintf("%s through the Snapshot taken at step %d returned %v, want ErrReadOnlyTxn", what, i, err)
+					}
+				}
+				_, err := s.Handle("GET", "/via/snapshot", fx.VerHandler(7), fx.WithVer(7))
+				refused("Handle", err)
+				_, err = s.Update(probes[0].m, pool.Patterns[0], fx.VerHandler(7), fx.WithVer(7))
+				refused("Update", err)
+				_, err = s.Delete(probes[0].m, pool.Patterns[0])
+				refused("Delete", err)
+				refused("Truncate", s.Truncate())
+				if i%2 == 0 {
+					s.Commit()
+				} else {
+					s.Abort()
+				}
+				if g := observe(s, nil); g != snaps[len(snaps)-1].want && bodyErr == "" {
+					bodyErr = fmt.Sprintf("the Snapshot taken at step %d reads differently after refused writes and Commit/Abort on it:\n%s    was\n%s", i, ind(g), ind(snaps[len(snaps)-1].want))
+				}
 			case opIter:
 				it := txn.Iter()
 				snaps = append(snaps, snap{it: &it, want: iterObs(it), at: i})
